@@ -2156,6 +2156,11 @@ class TargetRegistry:
             if cur_type is new_type:
                 # registered again: it already has its place in the tree
                 registered = True
+            elif cur_type in _DUCK_TYPES or new_type in _DUCK_TYPES:
+                # the built-in duck types are no parents: a virtual subclass of a
+                # type filed under one need not be an instance of it (an ABC with
+                # __iter__ covers classes without), and would never be reached
+                continue
             elif issubclass(cur_type, new_type):
                 sub_tree = _type_tree.pop(cur_type)  # mutation for recursion brevity
                 try:
